@@ -432,6 +432,15 @@ func Catalogue(m *Meta, s *Seed) []Mut {
 	add(Mut{Class: "ref/upper-case-name", Commit: -1, Op: "ref", Arg: strings.ToUpper(s.Id)})
 	add(Mut{Class: "ref/short-name", Commit: -1, Op: "ref", Arg: s.Id[:7]})
 	add(Mut{Class: "ref/long-name", Commit: -1, Op: "ref", Arg: s.Id + "00"})
+	add(Mut{Class: "ref/1-byte-name", Commit: -1, Op: "ref", Arg: s.Id[:1]})
+	add(Mut{Class: "ref/3-byte-name", Commit: -1, Op: "ref", Arg: s.Id[:3]})
+	add(Mut{Class: "ref/6-byte-name", Commit: -1, Op: "ref", Arg: s.Id[:6]})
+	add(Mut{Class: "ref/63-char-name", Commit: -1, Op: "ref", Arg: s.Id[:63]})
+	add(Mut{Class: "ref/65-char-name", Commit: -1, Op: "ref", Arg: s.Id + "0"})
+	add(Mut{Class: "ref/name-HEAD", Commit: -1, Op: "ref", Arg: "HEAD"})
+	add(Mut{Class: "ref/name-with-a-dot", Commit: -1, Op: "ref", Arg: s.Id[:31] + "." + s.Id[32:]})
+	add(Mut{Class: "ref/name-with-a-slash-short-last-segment", Commit: -1, Op: "ref", Arg: s.Id[:60] + "/" + s.Id[60:]})
+	add(Mut{Class: "ref/name-with-a-slash-long-last-segment", Commit: -1, Op: "ref", Arg: s.Id[:2] + "/" + s.Id[2:]})
 	add(Mut{Class: "ref/points-to-tree", Commit: -1, Op: "head", Arg: m.SomeTree})
 	add(Mut{Class: "ref/points-to-missing-object", Commit: -1, Op: "head", Arg: missingObject})
 	add(Mut{Class: "ref/foreign-history-under-this-name", Commit: -1, Op: "head", Arg: m.ForeignHead})
